@@ -70,6 +70,7 @@ func TestPropRPCGetEvents(t *testing.T) {
 		func(rt *rapid.T, c *stats.Case) {
 			u := gen.NewUniverse(rt)
 			ch := gen.NewChain(u, gen.Opts{MaxTxs: 3, MaxEvents: 4, DenseEvents: true, MinVersionIdx: rapid.IntRange(0, 3).Draw(rt, "minver")})
+			busyPools(rt, c, u, ch)
 			nd := node.New(rapid.Bool().Draw(rt, "newState"), nil, u.Net)
 			n := rapid.IntRange(1, 6).Draw(rt, "nblocks")
 			for i := 0; i < n; i++ {
